@@ -1929,7 +1929,7 @@ def match_finding(f, k):
         if any(got[n] != want[n][::-1].translate(tab) for n in got):
             return False
     if r.get("pad_wrong_end"):
-        # exactly ONE wrong answer: every sequence padded in FRONT of what it displayed (the padding was appended to the
+        # exactly ONE wrong answer: every reversed sequence padded in FRONT of what it displayed (the padding was appended to the
         # stored plus-strand data of a reversed sequence)
         try:
             mt, cur = inp["moltype"], dict(inp["seqs"])
@@ -1941,7 +1941,8 @@ def match_finding(f, k):
         got = f.get("got")
         if ops[-1][0] != "pad_seqs" or not isinstance(got, dict) or list(got) != list(want):
             return False
-        if any(got[n] != "-" * (len(want[n]) - len(cur[n])) + cur[n] for n in got):
+        # (a sequence added after the rc is not reversed and is padded correctly)
+        if any(got[n] not in ("-" * (len(want[n]) - len(cur[n])) + cur[n], want[n]) for n in got):
             return False
     if r.get("got") and str(f.get("got")) != r["got"]:
         # the finding explains one exception class only (another exception, or wrong rows, is a different violation)
